@@ -14,11 +14,21 @@ the trailing Shifts of a search success keeps it valid.  del_ins_commute,
 clean_accept, first_error_is_plain_reject (link to LR/Automaton.run).
 Tie / decision: the implementation reports ALL sequences of every error; the
 extracted `valid_repair` is evaluated on EVERY one of them at the configuration
-the mirror driver reaches by replaying the implementation's own first sequences
-(the HashSet in simplify_repairs makes the order random per run); errors, value
-tree and leaves are compared with the mirror; independently (Python) the tree's
-leaves must spell the repaired input and (extracted LR interpreter) plain
-parsing of the repaired token string must give the same tree shape.
+the mirror driver reaches by replaying the implementation's own first sequences;
+errors, value tree and leaves are compared with the mirror; independently
+(Python) the tree's leaves must spell the repaired input and (extracted LR
+interpreter) plain parsing of the repaired token string must give the same tree
+shape.
+The applied sequence is a function of the input (theories/C05/Simplify*.v:
+simplify_deterministic, simplify_stable, simplify_same_set; the pinned HashSet +
+unstable sort is refuted by simplify_refuted_orig; /repo ca69cd1): every erroneous
+input is parsed again, 8 times in one process and in 4 processes in all — the
+repairs() LIST of every error (order included), the applied sequence and (value,
+later errors) must be identical (vlib/repair.py determinism, REPAIR_ORDER_FIXED).
+Deep parse stacks (theories/C07/Drop*.v: recover_drop_depth_bounded, the pinned
+teardown refuted by recover_drop_depth_unbounded_refuted; /repo 4f40408): "the
+value is that of the repaired input" at nesting depths 2 000 .. 500 000 on threads
+with 2 / 8 MiB of stack, one process per parse (vlib/repair.py deep_check).
 """
 import re
 from vlib import core, cfg, repair
@@ -235,8 +245,12 @@ def run(ctx):
     ctx.gate = core.proof_gate("C05")
     for _ in ctx.gate["theorems"]:
         ctx.oblige(True)
-    cases = nonassoc_corpus() + repairgen.gen_cases(ctx, ctx.n(240, 2500), ctx.n(7, 8))
+    cases = nonassoc_corpus() + repair.det_family() + repairgen.gen_cases(ctx, ctx.n(240, 2500), ctx.n(7, 8))
     results = repair.run_cases(cases)
+    # deep parse stacks at the error (one process per parse); the reported list / applied sequence / (value, later errors)
+    # as a function of the input (every erroneous input parsed again, within one process and in separate ones)
+    repair.deep_check(ctx)
+    repair.determinism(ctx, results)
     for r in results:
         if not r.ok:
             ctx.count("grammar_rejected_" + r.err.split()[0])
